@@ -74,6 +74,10 @@ theorem ext_finish (st : State) (sid : Nat) : Ext st (st.finish sid) := by
   obtain ⟨p, ⟨hp, _⟩, rfl⟩ := hq
   exact Or.inl (List.mem_map_of_mem hp)
 
+theorem ext_unregister (st : State) (sid : Nat) : Ext st (st.unregister sid) := by
+  have h := ext_finish st sid
+  exact ⟨h.objs, h.table, h.heap, h.fresh, h.first, h.curpar, h.curlt⟩
+
 theorem ext_register (st : State) (s : Stream) (hs : N0ok s) : Ext st (st.register s).1 := by
   refine ⟨?_, ?_, by simp [State.register], ?_, rfl, fun _ => rfl, id⟩
   · intro oid x hx
@@ -135,6 +139,8 @@ macro_rules
   | `(tactic| ext_close1) => `(tactic| first
     | exact ext_refl _
     | exact ext_finish _ _
+    | exact ext_unregister _ _
+    | exact ext_trans (ext_setObj _ _ _ _ (by first | assumption | exact obj_register _ _) (by simp_all [Mono])) (ext_unregister _ _)
     | exact ext_trans (ext_setObj _ _ _ _ (by first | assumption | exact obj_register _ _) (by simp_all [Mono])) (ext_finish _ _)
     | exact ext_markChannel _ _ _ (by first | assumption | exact obj_setObj_self _ _ _ _ (by first | assumption | exact obj_register _ _) | exact obj_register _ _) _ _
     | exact ext_setObj _ _ _ _ (by first | assumption | exact obj_register _ _) (by simp_all [Mono])
@@ -273,6 +279,7 @@ theorem ext_apiStep (st : State) (ev : Ev) : Ext st (apiStep st ev).1 := by
       · split <;> ext_close
       · exact ext_refl _
     · exact ext_refl _
+  | fnfSent sid => simp only [apiStep]; exact ext_finish _ _
   | recv f b => exact ext_refl _
   | lost => exact ext_refl _
   | stopStreams => exact ext_refl _
@@ -372,7 +379,7 @@ theorem ext_stopOne (st : State) (sid oid : Nat) : Ext st (stopOne st sid oid).1
   unfold stopOne
   split
   · ext_close
-  · split <;> (try split) <;> ext_close
+  · split <;> (repeat' split) <;> ext_close
 
 theorem ext_stopAll (l : List (Nat × Nat)) : ∀ st : State, Ext st (stopAll st l).1 := by
   induction l with
